@@ -307,6 +307,9 @@ def check(ctx):
     check_ctor_folds(ctx)
     check_inits(ctx)
     check_packet_init(ctx)
+    # a keyword naming a described field overrides it like an assignment (C17-d)
+    from .c17 import check_constructor
+    check_constructor(ctx)
     from .c13 import check_freshness
     check_freshness(ctx)
     ctx.floor('obligations', len(ctx.obs), 40)
